@@ -101,8 +101,8 @@ Fixpoint hex (s : bytes) : bytes :=
 
 Fixpoint split_on_acc (sep : N) (s : bytes) (cur : bytes) : list bytes :=
   match s with
-  | [] => [rev cur]
-  | c :: s' => if c =? sep then rev cur :: split_on_acc sep s' [] else split_on_acc sep s' (c :: cur)
+  | [] => [rev_append cur []]
+  | c :: s' => if c =? sep then rev_append cur [] :: split_on_acc sep s' [] else split_on_acc sep s' (c :: cur)
   end.
 
 Definition split_on (sep : N) (s : bytes) : list bytes := split_on_acc sep s [].
